@@ -42,8 +42,10 @@ var c26Assumptions = []string{
 	"while finding " + c26FindLookupPrefix + " is listed open, a disagreement on a join over a table that has a prefix index and whose dolt plan contains a LookupJoin is attributed to it (counted as excluded_known); the pinned sub-test reports it",
 	"while finding " + c26FindPrefixLower + " is listed open, a disagreement where dolt returns a subset of the reference rows for a query over a table with a prefix index and dolt's plan uses an index is attributed to it (counted as excluded_known); the pinned sub-test reports it",
 	"while finding " + c26FindPrefixOnPK + " is listed open, secondary indexes get no prefix length on primary-key columns (counted as excluded_known); the pinned sub-test reports it",
+	"a case in which the memory engine rejects an INSERT of distinct composite keys with 'duplicate primary key given' (dolt accepts it) is skipped (counted as excluded_known, class reference_rejected_insert)",
 	"a secondary index the memory engine fails to build is dropped from dolt as well (counted as excluded_known, class reference_rejected_index)",
 	"a query on which the reference engine's connection dies (the memory engine panicked) is skipped and counted as excluded_known (class reference_engine_crashed)",
+	"while finding " + c26FindPrefixOverlap + " is listed open, a disagreement (no LIMIT) where dolt returns exactly the reference rows but some of them several times, for a query over a table with a prefix index and an index scan in dolt's plan, is attributed to it (counted as excluded_known); the pinned sub-test reports it",
 	"while finding " + c26FindKeylessCount + " is listed open, `SELECT COUNT(col) FROM <keyless table>` is not generated (counted as excluded_known); the pinned sub-test reports it",
 }
 
@@ -91,8 +93,14 @@ func (c *qCase) both(sql string) {
 		c.rt.Fatalf("HARNESS/dolt rejected setup statement %s: %v", qClip(sql, 600), err)
 	}
 	c.memUse(c.db)
-	if err := c.m.Exec(sql); err != nil {
-		c.rt.Fatalf("HARNESS/memory engine rejected setup statement %s: %v", qClip(sql, 600), err)
+	if err := c.m.Exec(sql); err != nil && strings.Contains(err.Error(), "duplicate primary key given") {
+		// memory-engine bug: it reports a duplicate primary key for rows whose composite keys are
+		// distinct (dolt accepted the same statement); the case cannot be compared
+		c.rec.Excluded(1)
+		c.rec.Class("reference_rejected_insert", 1)
+		c.rt.Skip("memory engine rejected an INSERT of distinct keys")
+	} else if err != nil {
+		c.rt.Fatalf("HARNESS/memory engine rejected setup statement %s: %v\n--- script ---\n%s", qClip(sql, 600), err, qClip(c.scriptText(), 3000))
 	}
 }
 
@@ -439,6 +447,47 @@ func c26PinnedPrefixOnPK(t *testing.T, srv *vsql.Server, admin *vsql.Session) st
 	return ""
 }
 
+// c26FindPrefixOverlap: prollyRangesFromSqlRanges trims range bounds to the prefix length, which
+// makes the disjoint ranges of one scan overlap; dolt scans every range separately and returns
+// the rows in the overlap once per range.
+const c26FindPrefixOverlap = "C26-prefix-index-overlapping-ranges"
+
+// qSameSet reports whether a and b contain the same distinct rows.
+func qSameSet(a, b *vsql.Rows) bool {
+	sa, sb := map[string]bool{}, map[string]bool{}
+	for _, r := range a.Sorted() {
+		sa[r] = true
+	}
+	for _, r := range b.Sorted() {
+		sb[r] = true
+	}
+	if len(sa) != len(sb) {
+		return false
+	}
+	for k := range sa {
+		if !sb[k] {
+			return false
+		}
+	}
+	return true
+}
+
+func c26PinnedPrefixOverlap(t *testing.T, srv *vsql.Server, admin *vsql.Session) string {
+	db := srv.NewDBName()
+	admin.MustExec(t, "CREATE DATABASE "+db)
+	defer admin.Exec("DROP DATABASE " + db)
+	s := srv.Session(t, "pinned", db)
+	defer s.Close()
+	s.MustExec(t, "CREATE TABLE t (k INT PRIMARY KEY, c VARCHAR(16), KEY i (c(1), k))")
+	s.MustExec(t, "INSERT INTO t VALUES (1,'a'),(2,'a'),(3,'ab'),(7,'abc'),(8,'b')")
+	q := "SELECT k, c FROM t WHERE c NOT IN ('ab','abc') OR k >= 5"
+	r := s.MustQuery(t, q)
+	if got := vsql.Show(r.Sorted()); got != "(1,a) (2,a) (7,abc) (8,b)" {
+		return "t(k INT PK, c VARCHAR(16), KEY i (c(1), k)) = {(1,'a'),(2,'a'),(3,'ab'),(7,'abc'),(8,'b')}: " + q + " returned " + got + " want (1,a) (2,a) (7,abc) (8,b)"
+	}
+	return ""
+}
+
 // c26FindKeylessCount: on a keyless table `SELECT COUNT(col) FROM t` (count fast path of
 // kvexec/count_agg.go) tests the NULL-ness of the value field one position to the left of col
 // (keyless value tuples start with the cardinality field).
@@ -558,6 +607,15 @@ func (c *qCase) runQuery(q qQuery) {
 		if strings.Contains(strings.Join(dp, "\n"), "IndexedTableAccess") && (q.Limit || qOnly(dr, mr) == "") {
 			c.rec.Excluded(1)
 			c.rec.Class("known:"+c26FindPrefixLower, 1)
+			return
+		}
+	}
+	if mismatch && q.has("prefix_index_table") && !q.Limit && vh.OpenFinding("C26", c26FindPrefixOverlap) {
+		dp, _ := plan()
+		// dolt returns every reference row, some of them more than once
+		if strings.Contains(strings.Join(dp, "\n"), "IndexedTableAccess") && qOnly(mr, dr) == "" && qSameSet(dr, mr) {
+			c.rec.Excluded(1)
+			c.rec.Class("known:"+c26FindPrefixOverlap, 1)
 			return
 		}
 	}
@@ -780,6 +838,16 @@ func TestVerif_C26(t *testing.T) {
 			t.Errorf("%s", msg)
 		}
 	})
+	t.Run("pinned_prefix_index_overlapping_ranges", func(t *testing.T) {
+		if msg := c26PinnedPrefixOverlap(t, srv, admin); msg != "" {
+			if vh.OpenFinding("C26", c26FindPrefixOverlap) {
+				vh.ReportKnown("C26", c26FindPrefixOverlap, msg)
+				return
+			}
+			vh.NoteViolation(t.Name(), "", `{"sql":["CREATE TABLE t (k INT PRIMARY KEY, c VARCHAR(16), KEY i (c(1), k))","INSERT INTO t VALUES (1,'a'),(2,'a'),(3,'ab'),(7,'abc'),(8,'b')","SELECT k, c FROM t WHERE c NOT IN ('ab','abc') OR k >= 5"],"observed":"`+strings.ReplaceAll(msg, `"`, `'`)+`"}`)
+			t.Errorf("%s", msg)
+		}
+	})
 	t.Run("pinned_valuerow_null_comparison", func(t *testing.T) {
 		if msg := c26PinnedValueRowNull(t, srv, admin); msg != "" {
 			if vh.OpenFinding("C26", c26FindValueRowNull) {
@@ -792,7 +860,7 @@ func TestVerif_C26(t *testing.T) {
 	})
 	maxRows := vh.N(120, 300)
 	nQueries := vh.N(45, 60)
-	vh.Check(t, "diff", 100, 150, func(rt *rapid.T) {
+	vh.Check(t, "diff", 40, 150, func(rt *rapid.T) {
 		db := srv.NewDBName()
 		admin.MustExec(rt, "CREATE DATABASE "+db)
 		defer admin.Exec("DROP DATABASE " + db)
